@@ -467,6 +467,20 @@ fn c04_codec<C: Oracle>(rep: &mut Report, rng: &mut Rng) {
                 } else {
                     rep.expect(matches!(got, Err(ParseBioError::SequenceTooLong(_, _))), "C04 longer slices are refused, not truncated", || format!("{} n={}", C::NAME, n));
                 }
+                // owned sequences of every history convert to the same integer (stale bits beyond the end must not leak)
+                if n * w <= 64 {
+                    let want = layout_value::<C>(&rows) as usize;
+                    let mut longer = rows.clone();
+                    longer.extend((0..3).map(|_| C::len() - 1));
+                    let mut t = build::<C>(&longer);
+                    t.truncate(n);
+                    let mut r = build::<C>(&longer);
+                    r.remove(n..);
+                    let dirty: Vec<usize> = { let mut v = build::<C>(&longer).into_raw().to_vec(); v.push(usize::MAX); v };
+                    let fr = Seq::<C>::from_raw(n, &dirty);
+                    rep.expect(usize::from(sl.to_owned()) == want && usize::from(t) == want && usize::from(r) == want && fr.map(usize::from) == Some(want),
+                        "C04 integer of an owned sequence = sum code_i * 2^(i*BITS), whatever its history", || format!("{} {} off={}", C::NAME, sl, off));
+                }
                 // owned copies: raw image uses the documented layout from bit 0 of word 0
                 let owned = sl.to_owned();
                 let img = owned.into_raw().to_vec();
@@ -955,6 +969,44 @@ fn c08(_tier: &str, seed: u64) -> Report {
     rep.expect(k64.to_string() == s[3..10].to_string() && k64 == &s[3..10], "C08 u64-backed k-mer holds the slice's symbols", || format!("{}", &s[3..10]));
     let lit = kmer!("ACGTTGCA");
     rep.expect(lit.to_string() == "ACGTTGCA" && lit == dna!("ACGTTGCA"), "C08 kmer! literal holds its symbols", || "ACGTTGCA".to_string());
+    // wide storage for every symbol width, symbols straddling the two words of a u128 (6-bit: symbol 10; 5-bit: symbol 12),
+    // slices at every offset, every construction route; display, deref-free symbol reading, conversion back
+    fn wide<C: Oracle, const K: usize, S: bio_seq::kmer::KmerStorage>(rep: &mut Report, rng: &mut Rng)
+    where Kmer<C, K, S>: core::fmt::Display {
+        for off in [0usize, 1, 3, 7, 13] {
+            let rows = rand_rows::<C>(rng, K);
+            with_offset::<C, _>(&rows, off, &mut Rng::new(rng.next()), |sl| {
+                rep.case(|| format!("wide {} K={} off={}", C::NAME, K, off));
+                let canon = build::<C>(&rows).to_string();
+                let a: Result<Kmer<C, K, S>, _> = Kmer::try_from(sl);
+                let b: Kmer<C, K, S> = Kmer::unsafe_from_seqslice(sl);
+                let c: Result<Kmer<C, K, S>, _> = Kmer::from_str(&String::from_utf8(text_of::<C>(&rows)).unwrap());
+                let ok = match (&a, &c) {
+                    (Ok(a), Ok(c)) => a.to_string() == canon && b.to_string() == canon && c.to_string() == canon && *a == sl && b == sl && *c == sl && rec(a) == rec(sl) && a.len() == K,
+                    _ => false,
+                };
+                rep.expect(ok, "C08 a k-mer on wide storage displays, compares and hashes as the slice it was built from (every construction route)", || format!("{} K={} off={} {} vs {:?}", C::NAME, K, off, canon, a.as_ref().map(|k| k.to_string())));
+            });
+        }
+        let short = build::<C>(&rand_rows::<C>(rng, K - 1));
+        let long = build::<C>(&rand_rows::<C>(rng, K + 1));
+        let (rs, rl): (Result<Kmer<C, K, S>, _>, Result<Kmer<C, K, S>, _>) = (Kmer::try_from(&short[..]), Kmer::try_from(&long[..]));
+        rep.expect(rs.is_err() && rl.is_err(), "C08 wrong length is an error on wide storage too", || format!("{} K={}", C::NAME, K));
+    }
+    wide::<Dna, 33, u128>(&mut rep, &mut rng);
+    wide::<Dna, 64, u128>(&mut rep, &mut rng);
+    wide::<Dna, 32, u64>(&mut rep, &mut rng);
+    wide::<Iupac, 17, u128>(&mut rep, &mut rng);
+    wide::<Iupac, 32, u128>(&mut rep, &mut rng);
+    wide::<Iupac, 16, u64>(&mut rep, &mut rng);
+    wide::<Amino, 11, u128>(&mut rep, &mut rng);
+    wide::<Amino, 15, u128>(&mut rep, &mut rng);
+    wide::<Amino, 21, u128>(&mut rep, &mut rng);
+    wide::<Amino, 10, u64>(&mut rep, &mut rng);
+    wide::<masked::iupac::Iupac, 13, u128>(&mut rep, &mut rng);
+    wide::<masked::iupac::Iupac, 25, u128>(&mut rep, &mut rng);
+    wide::<text::Dna, 9, u128>(&mut rep, &mut rng);
+    wide::<text::Dna, 16, u128>(&mut rep, &mut rng);
     rep
 }
 
@@ -1416,11 +1468,18 @@ fn c15_codec<C: Oracle>(rep: &mut Report, rng: &mut Rng, rounds: usize) {
             rep.case(|| format!("{} round={} rep={} keys={}", C::NAME, round, rep_i, model.len()));
             // forward lookups: keys (as slices at offsets) and non-keys
             for (k, a) in &model {
-                let off = rng.below(7);
-                with_offset::<C, _>(k, off, &mut Rng::new(rng.next()), |sl| {
-                    let got = t.try_to_amino(sl);
-                    rep.expect(got == Ok(<Amino as Oracle>::entry(*a).sym), "C15 a key codon translates to exactly the mapped amino acid, whatever slice presents it", || format!("{} {} off={} got {:?}", C::NAME, sl, off, got.as_ref().map(|x| x.to_char())));
-                });
+                // offsets inside the first word, at and across the first and second word boundary (a codon of 2..4 symbols
+                // whose bits straddle two storage words), and far into a long sequence
+                let wb = 64 / C::BITS as usize;
+                let offs = [rng.below(7), wb - 1, wb, wb.saturating_sub(2), 2 * wb - 1, 2 * wb + 1, 200 + rng.below(40)];
+                for &off in &offs[..if rep_i == 0 { 7 } else { 3 }] {
+                    with_offset::<C, _>(k, off, &mut Rng::new(rng.next()), |sl| {
+                        let got = t.try_to_amino(sl);
+                        rep.expect(got == Ok(<Amino as Oracle>::entry(*a).sym), "C15 a key codon translates to exactly the mapped amino acid, whatever slice presents it", || format!("{} {} off={} got {:?}", C::NAME, sl, off, got.as_ref().map(|x| x.to_char())));
+                    });
+                }
+                let owned = build::<C>(k);
+                rep.expect(t.try_to_amino(&owned) == Ok(<Amino as Oracle>::entry(*a).sym) && t.try_to_amino(&owned[..]) == Ok(<Amino as Oracle>::entry(*a).sym), "C15 a key codon translates to exactly the mapped amino acid, whatever slice presents it", || format!("{} {} (owned)", C::NAME, owned));
             }
             for _ in 0..6 {
                 let probe_len = 1 + rng.below(4);
